@@ -2,6 +2,8 @@
 
 mod engine;
 mod format;
+mod history;
+mod hooks;
 mod ops;
 mod props;
 mod tree;
